@@ -82,13 +82,22 @@ FORMS = [
     ('f-str', {'form': 'f', 'f': 'E1&"x"', 'ct': 'str', 'cv': 'cached'},
      'text:cached'),
     ('f-b', {'form': 'f', 'f': 'E1>E2', 'ct': 'b', 'cv': True}, 'bool:True'),
+    # a cached TEXT that spells a number stays text
+    ('f-str-num', {'form': 'f', 'f': 'E1&"x"', 'ct': 'str', 'cv': '007'},
+     'text:007'),
+    ('f-str-sci', {'form': 'f', 'f': 'E1&"x"', 'ct': 'str', 'cv': '1.5e3'},
+     'text:1.5e3'),
+    # "[" inside a text literal is not an external reference: the formula is
+    # evaluated, the (stale) cached result is not kept
+    ('f-bracket', {'form': 'f', 'f': 'E1&" [kg]"', 'ct': 'str',
+                   'cv': 'stale'}, 'text:stale'),
     ('f-date', {'form': 'f', 'f': 'E1+43829', 'ct': 'n', 'cv': 43831,
                 'style': 1}, 'date:43831'),
     ('f-e', {'form': 'f', 'f': 'E1/0', 'ct': 'e', 'cv': '#DIV/0!'},
      'err:#DIV/0!'),
 ]
 HELPERS = {'E1': 2, 'E2': 3, 'E3': 4}
-FORMULA_VALUES = {'E1+43829': 'num:43831.0',
+FORMULA_VALUES = {'E1+43829': 'num:43831.0', 'E1&" [kg]"': 'text:2 [kg]',
                   'E1+E2*E3': 'num:14.0', 'E1&"x"': 'text:2x',
                   'E1>E2': 'bool:False', 'E1/0': 'err:#DIV/0!'}
 
@@ -622,7 +631,9 @@ def run_names_sparse(mask, holes, ctx):
     """Three sheets, each with a 3-cell column of which the cells in ``holes``
     are not stored, and a name for the whole column; Sheet A sums every name.
     ``mask``: ignored subset of the two other sheets."""
-    titles = ['A', 'B', 'Data_2']
+    # (the second title is a proper prefix of the third: ignoring 'In' must
+    # not touch names that point into 'Inp')
+    titles = ['A', 'In', 'Inp']
     sheets = []
     for i, t in enumerate(titles):
         cells = {}
@@ -631,9 +642,10 @@ def run_names_sparse(mask, holes, ctx):
                 cells['A%d' % r] = {'form': 'n', 'v': 10 * (i + 1) + r}
         sheets.append((t, cells))
     names = {'col%d' % i: '%s!$A$1:$A$3' % t for i, t in enumerate(titles)}
-    names['one1'] = 'B!$A$1'
+    names['one1'] = 'Inp!$A$1'
     for i in range(3):
         sheets[0][1]['C%d' % (i + 1)] = {'form': 'f', 'f': 'SUM(col%d)' % i}
+    sheets[0][1]['C4'] = {'form': 'f', 'f': 'one1*2'}
     ignored = [t for k, t in enumerate(titles[1:]) if mask >> k & 1]
     key0 = 'C11/names-sparse/ignore=%d/holes=%s' % (
         mask, ''.join('%d%d' % h for h in sorted(holes)) or '-')
@@ -661,6 +673,15 @@ def run_names_sparse(mask, holes, ctx):
         ctx.check('%s/eval/%d' % (key0, i),
                   lib.eval_addr(model, 'A!C%d' % (i + 1)), lib.norm(want),
                   tags + ['oracle:evaluate'], inputs)
+    if 'Inp' not in ignored and (2, 1) not in holes:
+        d = model.defined_names.get('one1')
+        ctx.check(key0 + '/target/one1',
+                  'cell:%s' % d.address if isinstance(d, lib.xltypes.XLCell)
+                  else 'other:%s' % type(d).__name__, 'cell:Inp!A1',
+                  tags + ['name:cell'], inputs)
+        ctx.check(key0 + '/eval/one1', lib.eval_addr(model, 'A!C4'),
+                  lib.norm(62), tags + ['name:cell', 'oracle:evaluate'],
+                  inputs)
     stored = {a for a, c in model.cells.items()
               if c.formula is not None or c.value not in (None, '')}
     bad = sorted(a for a in stored if a.split('!')[0] in ignored)
@@ -722,7 +743,7 @@ def run_shard(shard, ctx):
         for mask in range(4):
             for holes in SPARSE_HOLES:
                 run_names_sparse(mask, holes, ctx)
-        ctx.sample({'family': f, 'names': {'col0': 'A!$A$1:$A$3'},
+        ctx.sample({'family': f, 'names': {'col2': 'Inp!$A$1:$A$3'},
                     'note': 'A2 is not stored in the file'})
     elif f == 'loads':
         for a in range(len(LOAD_OPTS)):
